@@ -1333,7 +1333,7 @@ class t2eri_A(RegisteredIntermediate):
         pi1 = pi1.expand_itmd if fully_expand else pi1.tensor
         pi2 = pi2.expand_itmd if fully_expand else pi2.tensor
         # build the itmd
-        pia = (0.5 * pi1(indices=(i, j, k, a), return_sympy=True)
+        pia = (Rational(1, 2) * pi1(indices=(i, j, k, a), return_sympy=True)
                + pi2(indices=(i, j, k, a), return_sympy=True)
                - pi2(indices=(j, i, k, a), return_sympy=True))
         target = (i, j, k, a)
